@@ -30,13 +30,14 @@ import (
 // earlier when a whole round changes nothing).
 const DriveRounds = 40
 
-// Real is the executor of one case.
+// Real is the in-process executor of one case (see worker.go: the checks run it inside recycled
+// child processes).
 type Real struct {
 	env *nbenv.Env
 }
 
-// New returns an executor without environment (the first line of a script creates it).
-func New() *Real { return &Real{} }
+// NewLocal returns an in-process executor without environment (the first line of a script creates it).
+func NewLocal() *Real { return &Real{} }
 
 // Close releases the environment.
 func (r *Real) Close() {
@@ -256,7 +257,7 @@ func (r *Real) Exec(line string) string {
 		if len(e.Tx.Created) > before {
 			t := e.Tx.Created[len(e.Tx.Created)-1]
 			if crash := e.Drive(t.Index, DriveRounds); crash != "" {
-				return "panic downstream:" + strings.ReplaceAll(crash, " ", "_")
+				return "panic downstream " + PanicSite(crash)
 			}
 			return EncTx(t, c.err == nil)
 		}
@@ -330,7 +331,7 @@ func (r *Real) Exec(line string) string {
 		if len(e.Tx.Created) > before {
 			t := e.Tx.Created[len(e.Tx.Created)-1]
 			if crash := e.Drive(t.Index, DriveRounds); crash != "" {
-				return "panic downstream:" + strings.ReplaceAll(crash, " ", "_")
+				return "panic downstream " + PanicSite(crash)
 			}
 		}
 		if c.err != nil {
